@@ -27,6 +27,7 @@ def dims_equal(a, b):
 
 
 _probe_counter = itertools.count()
+SUMMANDS = {}
 _MISS = object()
 
 
@@ -675,11 +676,12 @@ class SymNDArray:
             if is_lit(s, 0):
                 if e.same(total) or CTX.entails(e == total):
                     return self
-                acc = IExpr.const(0)
-                for n, b in enumerate(self.blocks):
-                    acc = acc + b.size
-                    if e.same(acc) or CTX.entails(e == acc):
-                        return make_blocks_array(self.blocks[:n + 1])
+                if self.buf.state is None:
+                    acc = IExpr.const(0)
+                    for n, b in enumerate(self.blocks):
+                        acc = acc + b.size
+                        if e.same(acc) or CTX.entails(e == acc):
+                            return make_blocks_array(self.blocks[:n + 1])
         if self.buf.state is None and any(len(b.shape) > 1 for b in self.blocks):
             if len(k) == 1 and is_int_like(k[0]):
                 return self._blocks_at((norm_bound(k[0], self.shape[0], 0),))
@@ -1579,7 +1581,10 @@ def reduce_any(a):
 def reduce_sum(a):
     idxs = _concrete_indices(a)
     if idxs is None:
-        return R.fn('SUM', R.var('buf%d' % a.buf.id))
+        # opaque total over a symbolic number of entries; the summand array is kept for contracts on it
+        name = 'SUM!buf%d' % a.buf.id
+        SUMMANDS[name] = a
+        return R.var(name)
     r = R.const(0)
     for idx in idxs:
         r = r + R.of(a.at(idx))
